@@ -703,5 +703,6 @@ RULES = [
     # leftover hand-over and the helper's batch grab are wfcqueue splices (into a live queue for the hand-over)
     ("C03.queue", lambda c, r: pat.shared(__import__("sa.rules.c10", fromlist=["x"]).rule_splice, "C03.queue")(c, r)),
     ("C03.queue", lambda c, r: pat.shared(__import__("sa.rules.c10", fromlist=["x"]).rule_append, "C03.queue")(c, r)),
+    ("C03.listtrav", lambda c, r: __import__("sa.rules.c15", fromlist=["x"]).rule_listtrav(c, r, "C03.listtrav")),   # the helper list (teardown, barrier, fork handlers) is walked with these macros
 ]
 FLOORS = {}
